@@ -740,6 +740,13 @@ NORM_STMTS = [
     'CREATE TABLE t ("a" int, b int);\nALTER TABLE t ADD CONSTRAINT "c" FOREIGN KEY ("a") REFERENCES "o" ("x");\nCREATE UNIQUE INDEX "i" ON t ("a" DESC, b);',
     'CREATE SEQUENCE "s"."q" START 1;',
     'CREATE TYPE "s"."ty" AS ENUM (\'a\');',
+    # delimited names that spell SQL words, inside ALTER statements (nothing but the delimiters tells the lexer they are names)
+    "CREATE TABLE [dbo].[events] ([id] int, [type] int, [key] int, [note] int);\nALTER TABLE [dbo].[events] DROP COLUMN [type];",
+    "CREATE TABLE [dbo].[events] ([id] int, [key] int);\nALTER TABLE [dbo].[events] ADD CONSTRAINT [uq_key] UNIQUE ([key]);",
+    "CREATE TABLE [dbo].[events] ([id] int, [note] int);\nALTER TABLE [dbo].[events] RENAME COLUMN [note] TO [comment];",
+    "CREATE TABLE `events` (`id` int, `key` int);\nALTER TABLE `events` ADD CONSTRAINT `df` DEFAULT 0 FOR `key`;",
+    "CREATE TABLE [e] ([id] int);\nALTER TABLE [e] ADD [index] int;",
+    "CREATE TABLE [e] ([id] int, [table] int);\nALTER TABLE [e] MODIFY COLUMN [table] varchar(3);",
 ]
 NNS = len(NORM_STMTS)
 
